@@ -297,6 +297,10 @@ def h_session(I, loop, pop_ups, ext, modes, free_flags):
                     ml.remove_watch_pipe(fd)
                 except Exception:  # noqa: BLE001
                     pass
+                try:
+                    os.close(fd)   # the write end belongs to the caller
+                except OSError:
+                    pass
         try:
             inp.close()
         except OSError:
